@@ -21,7 +21,7 @@ def input_rows(coll, extra_levels, with_lv=True):
     with_lv=False: the extra level columns are not part of the result files (rollup switched off)."""
     out = []
     for r in coll["rows"]:
-        lv = ["%s%d" % (lv.upper(), r["key"][1 + j]) for j, lv in enumerate(extra_levels)] if with_lv else []
+        lv = [mk.level_string(lv, r["key"][1 + j]) for j, lv in enumerate(extra_levels)] if with_lv else []
         out.append({"id": r["id"], "spec": r["spec"], "key": list(r["key"][:1 + len(extra_levels)]),
                     "tgt": bool(r["tgt"]), "rank": r["rank"], "s4": int(r["s4"]),
                     "pep": "K.PEP%dK.A" % r["key"][0], "prot": "prot_r%d" % r["id"], "lv": lv})
